@@ -235,3 +235,115 @@ def suite_with_contents(draw):
         other['file'] = 'other.suite'
     return {'root': root, 'cases': cases, 'sub': sub, 'other': other,
             'cwd_parent': chance(draw, 1, 5)}
+
+
+# ---- the complete matrix: phases supplied by the suite x phases supplied by the case ---------------------------------
+SECTIONS = ['conf'] + ALL_PHASES
+_SUITE_CONFS = [({'actor': 'source'}, False), ({'home': 'd1'}, False), ({'status': 'FAIL'}, False), ({}, True),
+                ({'actor': 'null'}, False), ({'actor': 'source', 'act_home': 'd2'}, True), ({'home': 'd2'}, True),
+                ({'status': 'PASS', 'act_home': 'd1'}, False)]
+_CASE_CONFS = [{'status': 'FAIL'}, {'home': 'd2'}, {'actor': 'source'}, {'act_home': 'd1'}, {'actor': 'null'},
+               {'status': 'PASS', 'home': 'd1'}]
+_EXTRA_SUITE = [['h'], ['E', VARS[0]], ['m'], ['p']]
+_EXTRA_CASE = [['p'], ['m'], ['E', VARS[0]], ['h']]
+
+
+def _subset_contents(who, directory, bits, variant, suite=None, source_actor=None):
+    """contents of a suite file (suite=None) or of a case listed by `suite` that supplies exactly the sections given
+    by `bits` (bit i = SECTIONS[i]); `variant` selects among the fixed ways to fill a section.
+    source_actor: 'here' = this file's [conf] sets the source interpreter actor, 'case' (suite only) = the case will -
+    the suite's [act] lines are then written for that actor (both files supply [act] lines: only the source
+    interpreter actor accepts more than one)"""
+    is_suite = suite is None
+    has = {name: bool(bits >> i & 1) for i, name in enumerate(SECTIONS)}
+    conf = {'status': None, 'actor': None, 'home': None, 'act_home': None}
+    pp = False
+    if has['conf']:
+        if is_suite:
+            d, pp = _SUITE_CONFS[variant % len(_SUITE_CONFS)]
+            if source_actor == 'here':
+                d, pp = [v for v in _SUITE_CONFS if v[0].get('actor') == 'source'][variant % 2]
+            conf.update(d)
+        else:
+            for k in range(len(_CASE_CONFS)):
+                d = _CASE_CONFS[(variant + k) % len(_CASE_CONFS)]
+                if source_actor == 'here':
+                    d = {'actor': 'source', 'status': [None, 'FAIL'][variant % 2]}
+                a = d.get('actor')
+                if a in ('source', 'command') and suite['phases'].get('act') and \
+                        ('sh' if a == 'source' else 'cmd') != suite['act_style']:
+                    continue  # the suite's act lines are written for the suite's actor
+                if a == 'null' and suite['phases'].get('act') and has['act']:
+                    continue  # keep both [act] contributions observable
+                conf.update(d)
+                break
+    eff_actor = conf['actor'] or (suite['conf']['actor'] if suite else None) or 'command'
+    if is_suite and source_actor == 'case':
+        eff_actor = 'source'
+    c = {'who': who, 'dir': directory, 'conf': conf, 'act_style': 'sh' if eff_actor == 'source' else 'cmd',
+         'phases': {}, 'layout': {}}
+    if is_suite:
+        c['pp'] = pp
+    extra = _EXTRA_SUITE if is_suite else _EXTRA_CASE
+    for pi, ph in enumerate(ALL_PHASES):
+        if not has[ph]:
+            continue
+        if ph == 'act':
+            if c['act_style'] == 'sh':
+                items = [['m'], ['E', VARS[0]]] if is_suite else [['p'], ['m']]
+            else:
+                items = [['m']]
+        else:
+            items = [['m'], list(extra[(pi + variant) % 4])]
+            if ph == 'setup' and is_suite:
+                items.append(['d', SYMS[0]])
+                if variant % 2:
+                    items.insert(0, ['e', VARS[0]])
+            if ph == 'assert' and not is_suite and suite['phases'].get('setup'):
+                items.append(['u', SYMS[0]])  # a symbol that only the suite defines
+        c['phases'][ph] = items
+    return c
+
+
+def enum_phase_subsets(tier):
+    """every subset of {conf, setup, act, before-assert, assert, cleanup} supplied by the suite x every subset supplied
+    by the case (thorough: all 64 x 64; quick: for every suite subset the same subset, the complement, all sections and
+    one more, in turn), the way of filling a section varied in turn (conf: actor / home / act-home / status /
+    preprocessor); every fifth with a sub-suite whose case supplies the same sections as the case of the root suite,
+    every third with an unrelated other.suite (other sections) that is given with --suite"""
+    n = 1 << len(SECTIONS)
+    for si in range(n):
+        if tier == 'quick':
+            picks = sorted({si, (n - 1) ^ si, n - 1, (si * 37 + 11) % n})
+        else:
+            picks = range(n)
+        for ci in picks:
+            v = si + ci if tier == 'quick' else si * 5 + ci * 3
+            both_act = si >> 2 & 1 and ci >> 2 & 1
+            # both files supply [act] lines: let one of the [conf] sections (if there is one) choose the source actor
+            who_sets = None if not both_act or v % 5 == 0 else 'suite' if si & 1 else 'case' if ci & 1 else None
+            root = _subset_contents('S', '', si, v, source_actor={'suite': 'here', 'case': 'case'}.get(who_sets))
+            root['file'] = 'exactly.suite' if v % 4 else 'main.suite'
+            if si & 1 and v % 23 == 0:
+                root['conf']['status'] = 'SKIP'  # nothing is executed: rarely
+            case = _subset_contents('c0', '', ci, v // 2, suite=root,
+                                    source_actor='here' if who_sets == 'case' else None)
+            case['file'] = 'c0.case'
+            sub = None
+            if (si + 2 * ci) % 5 == 0:
+                t = _subset_contents('T', 'sub', si if v % 2 else 0, v + 1,
+                                     source_actor={'suite': 'here', 'case': 'case'}.get(who_sets) if v % 2 else None)
+                t['file'] = 'sub/exactly.suite' if v % 3 else 'sub/x.suite'
+                tc = _subset_contents('t0', 'sub', ci, v // 2, suite=t,
+                                      source_actor='here' if who_sets == 'case' else None)
+                tc['file'] = 'sub/t0.case'
+                sub = {'contents': t, 'cases': [tc]}
+            other = None
+            if (si + ci) % 3 == 0:
+                # an unrelated suite file given with --suite: its contents apply, not those of exactly.suite
+                other = _subset_contents('O', '', (si * 7 + 5) % n, v + 3,
+                                         source_actor='case' if case['act_style'] == 'sh' else None)
+                if other['act_style'] != case['act_style']:
+                    other['phases'].pop('act', None)
+                other['file'] = 'other.suite'
+            yield {'root': root, 'cases': [case], 'sub': sub, 'other': other, 'cwd_parent': (si + ci) % 7 == 0}
